@@ -1118,14 +1118,15 @@ radius_pkt_attr_add_port(rad_pkt_hdr_p pkt, size_t pkt_buf_size, size_t *pkt_siz
 	if (NULL == addr)
 		return (EINVAL);
 
+	/* Port is 16 bit, attribute value is 32 bit in network byte order. */
 	switch (addr->ss_family) {
 	case AF_INET:
-		return (radius_pkt_attr_add(pkt, pkt_buf_size, pkt_size_ret,
-		    type, 4, (uint8_t*)&((struct sockaddr_in*)addr)->sin_port,
+		return (radius_pkt_attr_add_uint32(pkt, pkt_buf_size, pkt_size_ret,
+		    type, htonl((uint32_t)ntohs(((struct sockaddr_in*)addr)->sin_port)),
 		    offset_ret));
 	case AF_INET6:
-		return (radius_pkt_attr_add(pkt, pkt_buf_size, pkt_size_ret,
-		    type, 4, (uint8_t*)&((struct sockaddr_in6*)addr)->sin6_port,
+		return (radius_pkt_attr_add_uint32(pkt, pkt_buf_size, pkt_size_ret,
+		    type, htonl((uint32_t)ntohs(((struct sockaddr_in6*)addr)->sin6_port)),
 		    offset_ret));
 	}
 
